@@ -543,6 +543,7 @@ class RecordContextMatcher:
 
         # Add whitelisted functions to global dict
         self.data.update({func.__name__: func for func in FUNCTION_WHITELIST})
+        self.allowed_calls = frozenset(name for name, value in self.data.items() if callable(value))
 
         self.data["r"] = rec
         self.rec = rec
@@ -641,7 +642,7 @@ class RecordContextMatcher:
                 raise InvalidOperation("Error, only ast.Attribute or ast.Name are expected")
 
             func_name = resolve_attr_path(node)
-            if func_name is None or not (callable(self.data.get(func_name)) or func_name in WHITELIST):
+            if func_name is None or not (func_name in self.allowed_calls or func_name in WHITELIST):
                 raise InvalidOperation(
                     "Call '{}' not allowed. No calls other then whitelisted 'global' calls allowed!".format(func_name)
                 )
